@@ -243,7 +243,27 @@ fn gen_pts(r: &mut Rng, p: &Polytope, extra: &[Array1<f64>], near: bool) -> Stri
         let w = gen_point(r, k);
         pts.push(w);
     }
-    let s: Vec<String> = pts.iter().map(|x| sx_pt(p, x)).collect();
+    let mut s: Vec<String> = pts.iter().map(|x| sx_pt(p, x)).collect();
+    // distances_raw: the first 7 points (all of length n) as the columns of one matrix
+    let k = 7usize.min(pts.len());
+    if n > 0 || r.chance(1, 2) {
+        let bad = r.chance(1, 12);
+        let rows = if bad { other_dim(r, n) } else { n };
+        let mut m = Array2::<f64>::zeros((rows, k));
+        for j in 0..k {
+            for i in 0..rows.min(n) {
+                m[[i, j]] = pts[j][i];
+            }
+        }
+        let d = match catch(AssertUnwindSafe(|| p.distances_raw(&m))) {
+            Ok(d) => {
+                let cols: Vec<String> = (0..d.shape()[1]).map(|j| format!("(v {})", sx_vec(&d.column(j).to_owned()))).collect();
+                format!("{} {}", d.shape()[0], cols.join(" "))
+            }
+            Err(_) => "panic".to_string(),
+        };
+        s.push(format!("({} {} {})", if bad { "drawbad" } else { "draw" }, k, d));
+    }
     format!("(pts {})", s.join(" "))
 }
 fn frexp(v: f64) -> (f64, i32) {
